@@ -77,6 +77,22 @@ theorem fault_before_write_keeps_fs (c : Cfg) (fs : FS) (k : Nat) (hk : k < (pip
     simp at this
   exact ⟨herr, error_keeps_fs c (some k) fs herr⟩
 
+/-- the engineering rule behind the two theorems above, for **arbitrary** step lists: as long as every step before
+position `k` cannot touch a file, a failure at `k` leaves the filesystem unchanged – whatever comes later -/
+theorem pure_prefix_fault_keeps_fs (c : Cfg) (pre rest : List Step) (hpre : ∀ s ∈ pre, s.touchesFs = false)
+    (k : Nat) (hk : k < pre.length) (fs : FS) :
+    (runSteps c (pre ++ rest) (some k) fs).err ≠ none ∧ (runSteps c (pre ++ rest) (some k) fs).fs = fs := by
+  have hit := exec_fault_hit c k pre 0 (St.init fs) (Nat.zero_le _) (by omega)
+  have hfs : (exec c (some k) 0 pre (St.init fs)).2.fs = fs := exec_fs_of_pure c (some k) pre 0 (St.init fs) hpre
+  simp only [runSteps]
+  rw [exec_append]
+  cases hpre' : exec c (some k) 0 pre (St.init fs) with
+  | mk e st' =>
+    rw [hpre'] at hit hfs
+    cases e with
+    | none => simp at hit
+    | some e => exact ⟨by simp, hfs⟩
+
 /-- a save succeeds exactly when validation lets it through and no step inside the pipeline fails -/
 theorem ok_iff (c : Cfg) (fault : Option Nat) (fs : FS) :
     (save c fault fs).err = none ↔ (c.passes = true ∧ ∀ k, fault = some k → (pipeline c).length ≤ k) := by
